@@ -56,6 +56,7 @@ struct Scenario {
 	bool stdin_closed = false;      // the driver is started without descriptor 0 (cproc ... <&-)
 	bool sigchld_ignored = false;   // the driver inherits SIGCHLD = SIG_IGN: the kernel reaps children itself, wait() ends with ECHILD
 	int sigterm_inherited = 0;      // 1: the driver inherits SIGTERM = SIG_IGN (trap '' TERM; cproc ...), 2: SIGTERM blocked in the inherited mask
+	std::vector<std::pair<int, int>> term_immune;  // (stage, occurrence) of tools that ignore SIGTERM themselves (a wrapper script with trap '' TERM)
 	int heap_fill = 0;              // contents of memory the driver gets from malloc/realloc: 0 zero, 1 0xFF, 2 0xA5 (never the worker's history)
 	bool output_symlink = false;    // every output name of the command line exists beforehand as a symbolic link (out.o -> elsewhere/out.o)
 	std::vector<std::string> path_decoys;  // tool names for which an earlier PATH entry holds a directory of that name
